@@ -231,6 +231,38 @@ Theorem set_via_new_version : forall c o m sels r l o',
 Proof. exact MarkingsC07Ops.set_via_new_version. Qed.
 Print Assumptions set_via_new_version.
 
+(* ---- the hypotheses "... = Ok o'" of the theorems above are satisfiable: a constructed (KObj, so the
+        constructor's checks run) 2.1 identity carrying the object marking GREEN goes through every mutator,
+        in the repaired and in the pinned variant, with the pair sets the laws give ---- *)
+Definition ex_identity_obj : sobj :=
+  mkobj KObj true true
+        [(u "type", VStr (u "identity")); (u "name", VStr (u "ACME")); (u "created", VTime (u "t0"));
+         (u "modified", VTime (u "t0"))]
+        (Some [green_id]) None.
+
+Definition mutators_succeed_for (c : cfg) : Prop :=
+  match g_add_markings c ex_identity_obj [red_id] [u "name"] with
+  | Err _ => False
+  | Ok o1 =>
+      pairs (gms_list o1) = [(u "name", red_id)] /\ omr_list o1 = [green_id] /\
+      match g_set_markings c o1 [green_id] [u "name"] true true,
+            g_remove_markings c o1 [red_id] [u "name"],
+            g_clear_markings c o1 [u "name"] true true,
+            o_add_markings c o1 [red_id] with
+      | Ok o2, Ok o3, Ok o4, Ok o5 =>
+          pairs (gms_list o2) = [(u "name", green_id)] /\ pairs (gms_list o3) = [] /\ pairs (gms_list o4) = [] /\
+          omr_list o5 = [green_id; red_id] /\ pairs (gms_list o5) = [(u "name", red_id)] /\
+          match o_remove_markings c o5 [green_id] with
+          | Ok o6 => omr_list o6 = [red_id] /\ o6 <> o5
+          | Err _ => False
+          end
+      | _, _, _, _ => False
+      end
+  end.
+
+Example mutators_succeed : mutators_succeed_for cfg_repaired /\ mutators_succeed_for cfg_pinned.
+Proof. split; vm_compute; repeat split; try reflexivity; discriminate. Qed.
+
 (* ---- the queries agree with one another ---- *)
 
 Theorem query_agreement_granular : forall c o m sels i d b res,
